@@ -712,7 +712,7 @@ static void enumerate(void) {
             "Non-trivial = every case (each is a distinct structure); distinct by hash of the choice vector.");
     mc_assume("ref_thrift.c implements thrift-compact-protocol.md and the parquet.thrift field map independently of carquet");
     layer1();
-    deviations(DSZ, NDIM, mc_thorough() ? 3 : 2, "file", DNAME, check_file_structure);
-    deviations(PSZ, NPD, mc_thorough() ? 4 : 3, "page", NULL, check_page_structure);
+    deviations(DSZ, NDIM, 3, "file", DNAME, check_file_structure);
+    deviations(PSZ, NPD, 4, "page", NULL, check_page_structure);
 }
 int main(int argc, char** argv) { return mc_main(argc, argv, "thrift", enumerate); }
